@@ -1868,3 +1868,60 @@ func c12ImportAfterSurvival(c *Ctx, pk *packages.Package) {
 		c.Fail(rule, "anchor", token.NoPos, "no function recording imports and excluding elements found")
 	}
 }
+
+// ---- C13 (after round-6 seed C13-q) --------------------------------------------------------------------------------
+
+// c13ListValidatorTotal (LIST-VALIDATOR-TOTAL): a validator of a list of paths validates every element of the list. In
+// the exported Validate… functions of normalpath that take a list, the per-element validator is called inside a `range`
+// over the list (or a copy of it) with the element that the range yields - not inside a counting loop that looks at a
+// neighbour (`sorted[i-1]` for i = 1 … n-1 never looks at the last element, nor at the only one).
+func c13ListValidatorTotal(c *Ctx) {
+	const rule = "LIST-VALIDATOR-TOTAL"
+	c.Rule(rule, "a validator of a list of paths validates each element the range over the list yields", 1)
+	p := c.P
+	pk := p.Pkg("private/pkg/normalpath")
+	if pk == nil {
+		c.Fail(rule, "anchor", token.NoPos, "normalpath not found")
+		return
+	}
+	n := 0
+	for _, sf := range p.SSAFuncsOf([]*packages.Package{pk}) {
+		if sf.Signature.Recv() != nil || !strings.HasPrefix(sf.Name(), "Validate") || len(sf.Params) == 0 {
+			continue
+		}
+		if _, isSlice := sf.Params[0].Type().Underlying().(*types.Slice); !isSlice {
+			continue
+		}
+		for _, call := range callsIn(sf) {
+			callee := call.Call.StaticCallee()
+			if callee == nil || callee.Pkg != sf.Pkg || !strings.Contains(callee.Name(), "Validate") || len(call.Call.Args) == 0 {
+				continue
+			}
+			n++
+			// the innermost loop around the call
+			var h *ssa.BasicBlock
+			var loop map[*ssa.BasicBlock]bool
+			for _, b := range sf.Blocks {
+				if l := loopBlocks(b); l != nil && l[call.Instr.Block()] && (loop == nil || len(l) < len(loop)) {
+					h, loop = b, l
+				}
+			}
+			okLoop := h != nil && h.Comment == "rangeindex.loop"
+			// the element: a load of &list[k] where k is the range's own index (the +1 of the header φ), not k-1
+			okElem := false
+			if okLoop {
+				if u, ok := stripConv(call.Call.Args[0]).(*ssa.UnOp); ok {
+					if ia, ok := u.X.(*ssa.IndexAddr); ok {
+						if bo, ok := ia.Index.(*ssa.BinOp); ok && bo.Op == token.ADD && bo.Block() == h {
+							okElem = true
+						}
+					}
+				}
+			}
+			c.Ob(rule, fmt.Sprintf("normalpath.%s/%s", sf.Name(), callee.Name()), call.Pos(), okLoop && okElem, true, "%s is called in a range over the list (%v) with the element the range yields (%v)", callee.Name(), okLoop, okElem)
+		}
+	}
+	if n == 0 {
+		c.Fail(rule, "anchor", token.NoPos, "no list validator calling an element validator found in normalpath")
+	}
+}
